@@ -145,6 +145,15 @@ func VerifC03Step() {
 		nd.Assert(AddIndex(vCtx, c, vTbl, vIdx, ih, ir) == nil, "C03-setup-addindex")
 	}
 	m := &vModel{}
+	unfit := false
+	if late && !onKey && nd.Choice("unfit-item-first", 2) == 1 {
+		unfit = true
+		// an item whose g is a number can only be written while no index declares g a string; it stays out
+		// of the index created later and must not keep the items after it out (it is not in the model: its
+		// two-byte key equals no other key, and it never belongs to the index)
+		nd.Reach("unfit-item")
+		nd.Assert(vPut(c, vItem{"p": vS("uu"), "g": vN("1"), "h": vN("2")}) == nil, "C03-setup-put-unfit")
+	}
 	for i := 0; i < n; i++ {
 		nm := "k" + string(rune('0'+i))
 		key := vKey{p: nd.StringN(nm+".p", 1)}
@@ -156,6 +165,11 @@ func VerifC03Step() {
 		nd.Reach("index-created-after-data")
 		nd.Assert(AddIndex(vCtx, c, vTbl, vIdx, ih, ir) == nil, "C03-late-addindex")
 		mirror(m, "C03-backfill")
+		if unfit {
+			// this scenario is about the back-fill only
+			nd.Reach("end")
+			return
+		}
 	} else {
 		mirror(m, "C03-canon")
 	}
